@@ -11,7 +11,7 @@ use midnight_circuits::{
         native::{NB_ARITH_COLS, NB_ARITH_FIXED_COLS},
         AssignedNative, NativeChip, NativeConfig, NativeGadget,
     },
-    instructions::{AssignmentInstructions, ComparisonInstructions, PublicInputInstructions},
+    instructions::{AssignmentInstructions, ComparisonInstructions, ConversionInstructions, DivisionInstructions, PublicInputInstructions, RangeCheckInstructions},
     types::{AssignedBit, AssignedByte},
     ComposableChip,
 };
@@ -45,6 +45,12 @@ pub const NG_OPS: &[&str] = &[
     "ng.leq_fixed",
     "ng.geq_fixed",
     "ng.greater_than_fixed",
+    // two steps on one cell: a bound is asserted first (the gadget caches it), then the cell is
+    // converted / bounded again (which may take a shortcut from the cached bound)
+    "ng.bound_then_byte",
+    "ng.bound_then_bit",
+    "ng.bound_then_bound",
+    "ng.rem_then_byte",
 ];
 
 pub fn ng_ops() -> Vec<String> {
@@ -126,6 +132,40 @@ pub fn gen_case(rng: &mut Prng, op: &str) -> OpCase {
             } % pow2(252);
             big.push(b.to_str_radix(16));
             ins = vec![big_to_fq(&x)];
+        }
+        "bound_then_byte" | "bound_then_bit" | "bound_then_bound" => {
+            // strict bounds that are and are not powers of two, around the target's range
+            let b = match name {
+                "bound_then_byte" => *rng.pick(&[1u64, 2, 100, 255, 256, 257, 300, 400, 511, 512, 513, 1000, 65536]),
+                "bound_then_bit" => *rng.pick(&[1u64, 2, 3, 4, 5, 256]),
+                _ => *rng.pick(&[3u64, 100, 256, 300, 1 << 20, (1 << 20) + 7]),
+            };
+            big.push(format!("{b:x}"));
+            if name == "bound_then_bound" {
+                let b2 = *rng.pick(&[2u64, 99, 100, 255, 256, 299, 300, 1 << 20]);
+                big.push(format!("{b2:x}"));
+            }
+            let x = match rng.below(6) {
+                0 => 0,
+                1 => b.saturating_sub(1),
+                2 => b,
+                3 => 255.min(b.saturating_sub(1)),
+                4 => 256,
+                _ => rng.below(b.max(1) + 2),
+            };
+            ins = vec![Fq::from(x)];
+        }
+        "rem_then_byte" => {
+            let d = *rng.pick(&[2u64, 7, 255, 256, 257, 300, 511, 1000]);
+            big.push(format!("{d:x}"));
+            let q = rng.below(1 << 20);
+            let r = match rng.below(4) {
+                0 => d - 1,
+                1 => 255.min(d - 1),
+                2 => 256.min(d - 1),
+                _ => rng.below(d),
+            };
+            ins = vec![Fq::from(q * d + r)];
         }
         o => panic!("unknown ng op {o}"),
     }
@@ -243,6 +283,30 @@ fn body<L: Layouter<F>>(c: &OpCase, ng: &NG, l: &mut L, w: &[Value<F>]) -> Resul
             };
             vec![x, bit_n(&r)]
         }
+        "bound_then_byte" | "bound_then_bit" | "bound_then_bound" => {
+            let x: AssignedNative<F> = ng.assign(l, w[0])?;
+            ng.assert_lower_than_fixed(l, &x, &c.bigp(0))?;
+            match name {
+                "bound_then_byte" => {
+                    let b: AssignedByte<F> = ng.convert(l, &x)?;
+                    vec![x, byte_n(&b)]
+                }
+                "bound_then_bit" => {
+                    let b: AssignedBit<F> = ng.convert(l, &x)?;
+                    vec![x, bit_n(&b)]
+                }
+                _ => {
+                    ng.assert_lower_than_fixed(l, &x, &c.bigp(1))?;
+                    vec![x]
+                }
+            }
+        }
+        "rem_then_byte" => {
+            let y: AssignedNative<F> = ng.assign(l, w[0])?;
+            let r = ng.rem(l, &y, c.bigp(0), Some(BigUint::from(u64::MAX)))?;
+            let b: AssignedByte<F> = ng.convert(l, &r)?;
+            vec![y, r, byte_n(&b)]
+        }
         o => panic!("unknown ng op {o}"),
     })
 }
@@ -310,6 +374,41 @@ pub fn check(c: &OpCase, publics: &[Fq]) -> Result<bool, String> {
                 Err(format!("{name}({}, {b}) published as {}", v[0], v[1]))
             }
         }
+        "bound_then_byte" | "bound_then_bit" => {
+            let lim = if name == "bound_then_byte" { 256u32 } else { 2 };
+            if v.len() != 2 {
+                return Err(format!("{} values published, 2 expected", v.len()));
+            }
+            if v[0] >= c.bigp(0) || v[0] >= BigUint::from(lim) {
+                return Ok(false);
+            }
+            if v[1] == v[0] {
+                Ok(true)
+            } else {
+                Err(format!("conversion of {} published as {}", v[0], v[1]))
+            }
+        }
+        "bound_then_bound" => Ok(v.len() == 1 && v[0] < c.bigp(0) && v[0] < c.bigp(1)),
+        "rem_then_byte" => {
+            if v.len() != 3 {
+                return Err(format!("{} values published, 3 expected", v.len()));
+            }
+            if v[0] > BigUint::from(u64::MAX) {
+                return Ok(true); // outside the promised dividend bound: unspecified
+            }
+            let r = &v[0] % c.bigp(0);
+            if v[1] != r {
+                return Err(format!("{} mod {} published as {}", v[0], c.bigp(0), v[1]));
+            }
+            if r >= BigUint::from(256u32) {
+                return Ok(false);
+            }
+            if v[2] == r {
+                Ok(true)
+            } else {
+                Err(format!("conversion of {r} published as {}", v[2]))
+            }
+        }
         o => panic!("unknown ng op {o}"),
     }
 }
@@ -320,6 +419,10 @@ pub fn expected_admissible(c: &OpCase) -> bool {
     match name {
         "lower_than" | "leq" | "geq" | "greater_than" => x[0] < pow2(c.p[0]) && x[1] < pow2(c.p[1]),
         "lower_than_fixed" | "leq_fixed" | "geq_fixed" | "greater_than_fixed" => x[0] < pow2(c.p[0]),
+        "bound_then_byte" => x[0] < c.bigp(0) && x[0] < BigUint::from(256u32),
+        "bound_then_bit" => x[0] < c.bigp(0) && x[0] < BigUint::from(2u32),
+        "bound_then_bound" => x[0] < c.bigp(0) && x[0] < c.bigp(1),
+        "rem_then_byte" => &x[0] % c.bigp(0) < BigUint::from(256u32),
         _ => true,
     }
 }
